@@ -22,7 +22,8 @@ ASSUMPTIONS = ['reference: Warshall transitive closure, components = mutual reac
                'graph with order-preserving set subclasses']
 BUDGET = {'quick': 600, 'thorough': 3600}
 
-NAMES = {'str': lambda i: 's%d' % i, 'tup': lambda i: (i, 'x'), 'spaced': lambda i: (8, 1, 17, 40, 3)[i]}
+NAMES = {'str': lambda i: 's%d' % i, 'tup': lambda i: (i, 'x'), 'spaced': lambda i: (8, 1, 17, 40, 3)[i],
+         'mixed': lambda i: (0, 'x', (2,), None, 2.5)[i], 'fsets': lambda i: frozenset([i, 'k'])}
 
 
 def scope(tier, seed):
@@ -32,6 +33,7 @@ def scope(tier, seed):
     if tier == 'quick':
         return {'histories': hist, 'n<=3': 'all 530 digraphs x all n! insertion orders x all n! renamings + 3 naming '
                         'schemes + every successor-order assignment',
+                'n=5': 'block %d of 16 of the 33.5M digraphs, identity and reversed insertion order' % (seed % 16),
                 'n=4': 'all 65536 digraphs x all 24 insertion orders; every successor-order '
                        'assignment of the digraphs in block %d of 8 (block = top 3 bits of mask*0x9E3779B1 mod 2^32)' % (seed % 8)}
     return {'histories': hist, 'n<=3': 'as quick', 'n=4': 'all 65536 digraphs x all 24 insertion orders, and every '
@@ -95,13 +97,15 @@ def plan(tier, seed):
             sh.append(['n4', lo, hi, 'all'])
         for lo, hi in chunks(65536, 1024):
             sh.append(['n4succ', lo, hi, seed % 8])
+        for lo, hi in chunks(1 << 25, 1 << 19):
+            sh.append(['n5', lo, hi, seed % 16])
     else:
         for lo, hi in chunks(65536, 512):
             sh.append(['n4', lo, hi, 'all'])
         for lo, hi in chunks(65536, 256):
             sh.append(['n4succ', lo, hi, None])
         for lo, hi in chunks(1 << 25, 1 << 16):
-            sh.append(['n5', lo, hi])
+            sh.append(['n5', lo, hi, None])
     return sh
 
 
@@ -226,11 +230,15 @@ def run_shard(shard, tier, seed, acc):
         return
     if kind == 'n5':
         for mask in range(shard[1], shard[2]):
+            if shard[3] is not None and ((mask * 0x9E3779B1) % (1 << 32)) >> 28 != shard[3]:
+                continue
             if mask % 4096 == 0 and deadline_passed():
                 acc.capped()
                 return
             edges = spaces.digraph_from_mask(5, mask)
             check(5, edges, range(5), ident, acc)
+            if shard[3] is not None:
+                check(5, edges, [4, 3, 2, 1, 0], ident, acc)
         return
     raise ValueError(shard)
 
